@@ -116,15 +116,29 @@ def examine_code(s):
     return out
 
 
+_MILE = re.compile(r'^(\d?)MILE\s*([yYwW]?)$')
+
+
+def track_metres(code):
+    """(metres, lower-case suffix) of a plain-metre or mile track code, else None.  A mile is 1609 m."""
+    m = _PLAIN.match(code)
+    if m:
+        return int(m.group(1)), m.group(2).lower()
+    m = _MILE.match(code)
+    if m:
+        return 1609 * int(m.group(1) or 1), m.group(2).lower()
+    return None
+
+
 def order_expectation(a, b):
     """-1 / +1 when the property fixes the order of two codes' keys, else None; plus the clause name."""
     ca, cb = expected_class(a), expected_class(b)
     if ca != cb:
         return (-1 if ca < cb else 1), 'class-order'
     if ca == 1:
-        ma, mb = _PLAIN.match(a), _PLAIN.match(b)
-        if ma and mb and ma.group(2).lower() == mb.group(2).lower() and int(ma.group(1)) != int(mb.group(1)):
-            return (-1 if int(ma.group(1)) < int(mb.group(1)) else 1), 'track-by-distance'
+        ta, tb = track_metres(a), track_metres(b)
+        if ta and tb and ta[1] == tb[1] and ta[0] != tb[0]:
+            return (-1 if ta[0] < tb[0] else 1), 'track-by-distance'
     if ca == 2:
         ma, mb = _HURD.match(a), _HURD.match(b)
         if ma and mb and int(ma.group(1)) != int(mb.group(1)):
@@ -234,7 +248,7 @@ SIMPLE = ['100', '200', '400', '800', '1500', '3000', '5000', '10000', '60', '15
           '4x100', '4x400', '4x200', '4x800', '4x1500', '3x800', '4x100H', '4x5K', '4x1M', '12x200H',
           'HJ', 'PV', 'LJ', 'TJ', 'SP', 'DT', 'HT', 'JT', 'SP4K', 'SP7.26K', 'DT1.5K', 'HT4K', 'JT600', 'JT800', 'SHJ',
           'SLJ', 'STJ', 'WT', 'OT', 'BT', 'MAR', '5K', '10K', 'XC', 'DEC', 'HEP', 'T30', '24HR', 'H1', 'L3', 'SPB', 'BAL',
-          'MILE', '2MILE', 'SC', 'SH', 'LH', '2MT', 'TART', 'CHT', 'OHT', 'SWT', 'GDT', 'SSP', 'SDT', 'SJT', 'SBT', 'CT']
+          'MILE', '2MILE', 'MILEW', '2MILEW', 'MILEy', '3MILE', '1609', '3218W', 'SC', 'SH', 'LH', '2MT', 'TART', 'CHT', 'OHT', 'SWT', 'GDT', 'SSP', 'SDT', 'SJT', 'SBT', 'CT']
 
 
 def nontrivial(s):
